@@ -200,7 +200,9 @@ def xmlSafe(value: str | None) -> str:
     """
     if value is None:
         return ""
-    return value.replace('&', '&amp;')
+    # the ampersand has to be replaced first
+    return value.replace('&', '&amp;').replace('<', '&lt;').replace(
+        '>', '&gt;').replace('"', '&quot;').replace("'", '&apos;')
 
 @custom_tags.app_template_filter()
 def sortedAttributes(value):
